@@ -3,6 +3,8 @@ PROPS = {
     'C20': {
         'units': [{'unit': 'c20_config'}],
         'level': 'proof',
+        'level_text': 'Verus discharges, for every state of the indexes and every configuration, the precedence chain of is_checker_enable_by_code, the report/skip/severity contract of add_diagnostic and get_severity, and the enable/library guards of diagnose_file, on the function text extracted from /repo on each run. Unbounded: no input is sampled.',
+        'level_note': 'index lookups, default tables, translate_range and check_file are uninterpreted (weakest contract); LuaDiagnosticConfig::new and the globals/globalsRegex guard are not covered; frame of `diagnostics` by module privacy + scan; Verus/Z3/rustc trusted',
         'not_covered': [
             'LuaDiagnosticConfig::new (iterator pipelines): the mapping diagnostics.disable -> workspace_disabled etc. is assumed',
             'the ~50 checkers reach the diagnostics list only through add_diagnostic (scan, not proof)',
